@@ -8,6 +8,8 @@ arithmetic, loop guards, comparison orientation and statement-presence facts are
 `internal/heap/heap.go` and `container/xheap/xheap.go` on every run. `less` is any strict weak order
 (`Spec.Heap.StrictWeak`: irreflexive, transitive, incomparability transitive — the contract of
 `xsort.Less`); a `compare`-constructed order is `fun a b => compare a b < 0`.
+The first sections are about `internal/heap` (the array heap shared by `xheap.Heap` and
+`xheap.PriorityQueue`), the section "what the user sees" about the exported wrapper `xheap.Heap`.
 Helper lemmas: `Juniper/Proofs/Heap*.lean`, `Juniper/Proofs/PQ*.lean`.
 -/
 namespace Juniper.Props.C05
@@ -90,86 +92,109 @@ theorem updateAt_panics_iff (less : α → α → Bool) (h : Heap α) (i : Nat) 
 example : (updateAt ltN ⟨[0, 3, 1, 4, 5], 0⟩ 1 9).map (·.1.a) = some [0, 4, 1, 9, 5] := by decide
 example : (updateAt ltN ⟨[1, 3, 2, 4, 5], 0⟩ 4 0).map (·.1.a) = some [0, 1, 2, 4, 3] := by decide
 
-/-! ## Heap: what the user sees -/
+/-! ## Heap: what the user sees (`xheap.Heap`)
+
+The theorems of this section are about the methods of the exported wrapper `xheap.Heap`
+(`Model.Heap.X.push/pop/peek/len/drain`), which the model *defines* by the generated facts "the body
+of the wrapper method is exactly the forwarding statement" (`xPushForwards`, `xPopForwards`,
+`xPeekForwards`, `xLenForwards`); every proof discharges the facts it needs by `decide`, so a wrapper
+that does anything but forward breaks the theorem about that method. -/
+
+/-- `Push` keeps the heap order and adds exactly the pushed item. -/
+theorem xheap_push {less : α → α → Bool} (sw : StrictWeak less) (h : Heap α) (x : α)
+    (hh : HeapInv less h.a) :
+    HeapInv less (X.push less h x).a ∧ (X.push less h x).a.Perm (x :: h.a) := by
+  rw [xpush_eq (by decide)]
+  exact ⟨push_heapInv sw h x hh, Juniper.Proofs.Heap.push_perm less h x⟩
 
 /-- `Peek` returns a held item that no other held item is less than. -/
 theorem peek_min {less : α → α → Bool} (sw : StrictWeak less) {h : Heap α} {x : α}
-    (hh : HeapInv less h.a) (hp : peek h = some x) : IsMin less x h.a :=
-  isMin_root sw hh (by simpa [peek, peekIdx] using hp)
+    (hh : HeapInv less h.a) (hp : X.peek h = some x) : IsMin less x h.a := by
+  rw [xpeek_eq (by decide)] at hp
+  exact isMin_root sw hh (by simpa [peek, peekIdx] using hp)
 
-/-- `Pop` returns a held item that no other held item is less than. -/
-theorem pop_min {less : α → α → Bool} (sw : StrictWeak less) {h h' : Heap α} {x : α} {notes : List (Note α)}
-    (hh : HeapInv less h.a) (hp : pop less h = some (h', x, notes)) : IsMin less x h.a := by
-  obtain ⟨_, hit, _⟩ := pop_shape hp
-  exact isMin_root sw hh hit
+/-- `Pop` returns a held item that no other held item is less than, removes exactly that item and
+keeps the heap order. -/
+theorem pop_min {less : α → α → Bool} (sw : StrictWeak less) {h h' : Heap α} {x : α}
+    (hh : HeapInv less h.a) (hp : X.pop less h = some (h', x)) :
+    IsMin less x h.a ∧ (x :: h'.a).Perm h.a ∧ HeapInv less h'.a := by
+  obtain ⟨notes, hp'⟩ := xpop_some (by decide) hp
+  obtain ⟨_, hit, _⟩ := pop_shape hp'
+  exact ⟨isMin_root sw hh hit, Juniper.Proofs.Heap.pop_perm hp', pop_heapInv sw hh hp'⟩
 
 example : IsMin ltN 1 [1, 1, 2, 3] := ⟨by decide, by decide⟩
+example : X.pop ltN ⟨[1, 1, 2, 3, 5, 4], 7⟩ = some (⟨[1, 3, 2, 4, 5], 8⟩, 1) := by decide
 
 /-- `Pop` on an empty heap panics, and only then. -/
-theorem pop_empty_panics (less : α → α → Bool) (h : Heap α) : pop less h = none ↔ h.a = [] :=
-  pop_none_iff less h
+theorem pop_empty_panics (less : α → α → Bool) (h : Heap α) : X.pop less h = none ↔ h.a = [] := by
+  rw [xpop_none (by decide)]; exact pop_none_iff less h
 
 /-- `Peek` on an empty heap panics, and only then. -/
-theorem peek_empty_panics (h : Heap α) : peek h = none ↔ h.a = [] := by
+theorem peek_empty_panics (h : Heap α) : X.peek h = none ↔ h.a = [] := by
+  rw [xpeek_eq (by decide)]
   cases ha : h.a <;> simp [peek, peekIdx, ha]
 
 /-- `Len` is pushes (plus initial items) minus pops. -/
 theorem len_counts (less : α → α → Bool) (h : Heap α) :
-    (∀ initial : List α, len (new less initial).1 = initial.length) ∧
-    (∀ x, len (push less h x).1 = len h + 1) ∧
-    (∀ h' x notes, pop less h = some (h', x, notes) → len h' = len h - 1) := by
+    (∀ initial : List α, X.len (new less initial).1 = initial.length) ∧
+    (∀ x, X.len (X.push less h x) = X.len h + 1) ∧
+    (∀ h' x, X.pop less h = some (h', x) → X.len h' = X.len h - 1) := by
   refine ⟨?_, ?_, ?_⟩
   · intro initial
+    rw [xlen_eq (by decide)]
     simp only [len, lenVal]; rw [(new_perm less initial).length_eq]
   · intro x
+    rw [xlen_eq (by decide), xlen_eq (by decide), xpush_eq (by decide)]
     simp only [len, lenVal]; rw [(Juniper.Proofs.Heap.push_perm less h x).length_eq]; simp
-  · intro h' x notes hp
-    have := (Juniper.Proofs.Heap.pop_perm hp).length_eq
+  · intro h' x hp
+    obtain ⟨notes, hp'⟩ := xpop_some (by decide) hp
+    have := (Juniper.Proofs.Heap.pop_perm hp').length_eq
+    rw [xlen_eq (by decide), xlen_eq (by decide)]
     simp only [len, lenVal]; simp at this; omega
 
 /-- Draining returns everything, in non-decreasing order. -/
 theorem drain_sorted {less : α → α → Bool} (sw : StrictWeak less) (f : Nat) (h : Heap α)
     (hh : HeapInv less h.a) (hf : h.a.length ≤ f) :
-    Sorted less (drain less f h) ∧ (drain less f h).Perm h.a := by
+    Sorted less (X.drain less f h) ∧ (X.drain less f h).Perm h.a := by
   induction f generalizing h with
   | zero =>
     have : h.a = [] := List.eq_nil_of_length_eq_zero (by omega)
-    simp [drain, Sorted, this]
+    simp [X.drain, Sorted, this]
   | succ f ih =>
-    unfold drain
-    cases hp : pop less h with
+    unfold X.drain
+    cases hp : X.pop less h with
     | none =>
-      have : h.a = [] := (pop_none_iff less h).mp hp
+      have : h.a = [] := (pop_empty_panics less h).mp hp
       simp [Sorted, this]
     | some r =>
-      obtain ⟨h', x, notes⟩ := r
-      have hperm := Juniper.Proofs.Heap.pop_perm hp
+      obtain ⟨h', x⟩ := r
+      obtain ⟨hmin, hperm, hinv⟩ := pop_min sw hh hp
       have hlen := hperm.length_eq
       simp at hlen
-      obtain ⟨hs, hpm⟩ := ih h' (pop_heapInv sw hh hp) (by omega)
-      have hmin := pop_min sw hh hp
+      obtain ⟨hs, hpm⟩ := ih h' hinv (by omega)
       refine ⟨?_, (hpm.cons x).trans hperm⟩
       simp only [Sorted, List.pairwise_cons]
       refine ⟨?_, hs⟩
       intro y hy
       exact hmin.2 y (hperm.subset (List.mem_cons_of_mem _ (hpm.subset hy)))
 
-example : drain ltN 6 (new ltN [5, 3, 4, 1, 1, 2]).1 = [1, 1, 2, 3, 4, 5] := by decide
+example : X.drain ltN 6 (new ltN [5, 3, 4, 1, 1, 2]).1 = [1, 1, 2, 3, 4, 5] := by decide
+
+/-- one call of a history: `some x` = `Push(x)`, `none` = `Pop()` (a panicking `Pop` leaves the heap
+as it is) -/
+def hstep (less : α → α → Bool) (h : Heap α) : Option α → Heap α
+  | some x => X.push less h x
+  | none => match X.pop less h with
+    | some (h', _) => h'
+    | none => h
 
 /-- Every history of `New` / `Push` / `Pop` keeps the heap order: the hypotheses of `peek_min`,
 `pop_min` and `drain_sorted` hold in every reachable state. -/
 theorem heap_reachable_inv {less : α → α → Bool} (sw : StrictWeak less) (initial : List α)
     (ops : List (Option α)) :
-    HeapInv less (ops.foldl (fun h o => match o with
-      | some x => (push less h x).1
-      | none => match pop less h with
-        | some (h', _, _) => h'
-        | none => h) (new less initial).1).a := by
-  suffices ∀ h : Heap α, HeapInv less h.a → HeapInv less (ops.foldl (fun h o => match o with
-      | some x => (push less h x).1
-      | none => match pop less h with
-        | some (h', _, _) => h'
-        | none => h) h).a from this _ (new_heapInv sw initial)
+    HeapInv less (ops.foldl (hstep less) (new less initial).1).a := by
+  suffices ∀ h : Heap α, HeapInv less h.a → HeapInv less (ops.foldl (hstep less) h).a from
+    this _ (new_heapInv sw initial)
   induction ops with
   | nil => intro h hh; exact hh
   | cons o t ih =>
@@ -177,11 +202,15 @@ theorem heap_reachable_inv {less : α → α → Bool} (sw : StrictWeak less) (i
     simp only [List.foldl_cons]
     apply ih
     cases o with
-    | some x => exact push_heapInv sw h x hh
+    | some x => exact (xheap_push sw h x hh).1
     | none =>
-      cases hp : pop less h with
-      | none => simpa [hp] using hh
-      | some r => obtain ⟨h', x, n⟩ := r; simpa [hp] using pop_heapInv sw hh hp
+      simp only [hstep]
+      cases hp : X.pop less h with
+      | none => exact hh
+      | some r => obtain ⟨h', x⟩ := r; exact (pop_min sw hh hp).2.2
+
+example : (([some 4, some 1, none, some 0, none, none, none] : List (Option Nat)).foldl (hstep ltN)
+    (new ltN [5, 3]).1).a = [5] := by decide
 
 /-- `less`- and `compare`-constructed heaps: `compare(a,b) < 0` of a three-way comparison consistent
 with a strict weak order is that order, so every theorem above applies to `NewCmp` as well. -/
@@ -197,9 +226,6 @@ theorem cmp_constructed (less : α → α → Bool) (cmp : α → α → Int)
 
 theorem lessOfLess_eq (less : α → α → Bool) : lessOfLess less = less := by
   funext a b; simp [lessOfLess, newLessWrap]
-
-/-- every wrapper method of `xheap.Heap` forwards to the inner heap (generated presence facts) -/
-theorem xheap_forwards : wrapperForwards = true := by decide
 
 /-! ## PriorityQueue: the key → index map stays exact -/
 
